@@ -42,8 +42,10 @@ def _unescape(s):
 
 def run(module, cfg=None, timeout=600, workers=16, coverage=False, heap="8g", env=None,
         simulate=None, depth=None, seed=None, deadlock=None, dfs=False, collect_tr=False,
-        extra=None, max_tr=None, sample_tr=None, cwd=None):
-    """Run TLC on spec/<module>.tla with spec/<cfg>.cfg."""
+        extra=None, max_tr=None, sample_tr=None, cwd=None, on_tr=None):
+    """Run TLC on spec/<module>.tla with spec/<cfg>.cfg.
+    on_tr (optional): called with every collected behaviour instead of appending it to res.tr (streaming; TLC waits while
+    the callback runs)."""
     res = TlcResult()
     meta = tempfile.mkdtemp(prefix="tlc-meta-")
     jv = _java(heap, dfs)
@@ -97,7 +99,10 @@ def run(module, cfg=None, timeout=600, workers=16, coverage=False, heap="8g", en
                         # sample_tr = (k, offset): keep every k-th behaviour (TLC prints in BFS order, a prefix is not representative)
                         if (sample_tr is None or res.n_tr % sample_tr[0] == sample_tr[1] % sample_tr[0]) and \
                                 (max_tr is None or len(res.tr) < max_tr):
-                            res.tr.append(json.loads(_unescape(m.group(1))))
+                            if on_tr is not None:
+                                on_tr(json.loads(_unescape(m.group(1))))
+                            else:
+                                res.tr.append(json.loads(_unescape(m.group(1))))
                         continue
                 keep.append(ln)
             p.wait()
